@@ -182,6 +182,8 @@ def h_path_three_links(code: int, f1: bool, f2: bool, f3: bool, back: bool) -> b
   post: _ == True
   """
   vp.enter("p3")
+  # (decided here, under tracing: the values are used untraced below)
+  f1, f2, f3, back = (True if f1 else False), (True if f2 else False), (True if f3 else False), (True if back else False)
   base = [("a", "+", "b", "-", "1M1D2M"), ("b", "-", "c", "+", "2I1M"), ("c", "+", "d", "+", "3M")]
   def form(x, comp):
     if comp: x = (x[2], INV[x[3]], x[0], INV[x[1]], cigar_complement_text(x[4]))
